@@ -93,6 +93,8 @@ def run_one(job):
             return dict(file=file, line=line, fn=fname, mut=desc, outcome="undecided", why="build: %s" % str(e)[:120])
         text = b["text"]
         # which generated function changed?
+        if text == pristine_text:
+            return dict(file=file, line=line, fn=fname, mut=desc, outcome="not-extracted", why="the mutated code is not part of the unit (function under an assumed contract)")
         a = pristine_text.split("\n"); bb = text.split("\n")
         k = 0
         while k < min(len(a), len(bb)) and a[k] == bb[k]:
